@@ -91,14 +91,14 @@ PROPS = {
                 "yvals (shared with C16): chains whose levels each add patterns, lengths and ranges with their error statements — the patterns of every level must all hold",
     },
     "C16": {
-        "streams": {"ytypes": {"quick": 4000, "thorough": 200000}, "yvals": {"quick": 3000, "thorough": 150000, "spec_proj": "verdicts"}},
+        "streams": {"ytypes": {"quick": 4000, "thorough": 200000}, "yvals": {"quick": 3000, "thorough": 150000}},
         "trusted": ["Go float64 comparison / strconv.ParseFloat = SF64 (checked bit-for-bit by C01's stream 'sf')"],
         "modelled": ["patterns: the regular fragment the generator writes (literals, '.', character classes, concatenation, alternation, * + ?), on which RE2 and XSD agree; RE2 itself is trusted on it",
                      "leafref, bits, instance-identifier, binary are not modelled; identity status (obsolete identities in the help text) is not modelled",
                      "decimal64 ranges are binary64 in the code and in the model; the specification is exact: open known finding"],
         "rule": "the probes of stream ytypes: for every generated type, every bound of every range part +/- one unit, the width bounds +/- 1, 18-19 digit values, signs, leading zeros, "
                 "blanks, hex/exponent forms, multi-byte strings at the length bounds; compared: Type.Validate verdict per probe with the model and with the exact value-space specification; "
-                "yvals: typedef chains with error-message / error-app-tag on range, length and pattern statements, 1-2 random patterns per level (alternation at top level, nested quantifiers, negated classes), "
+                "yvals: typedef chains (all in the leaf's module, or spread over three modules one of which imports the first under another prefix) with error-message / error-app-tag on range, length and pattern statements, 1-2 random patterns per level (alternation at top level, nested quantifiers, negated classes), "
                 "unions nested to depth 2, identityrefs over a random identity forest spread over three modules (values with and without module name); ~60 probes per case; compared: verdict, app-tag, custom message and error path per probe",
     },
     "C17": {
@@ -137,7 +137,8 @@ PROPS = {
                 "dump(filtered compile) = prune(dump(unfiltered compile)) on the real code (all attributes), and the unfiltered dump (core attributes) and every error with the Lean compile model",
     },
     "C14": {
-        "streams": {"ycfg": {"quick": 2500, "thorough": 120000}},
+        "streams": {"ycfg": {"quick": 2500, "thorough": 120000},
+                    "yuses": {"quick": 1000, "thorough": 40000}},
         "trusted": ["the canonical dump of a compiled ModelSet and the classification of compile errors into classes (harness)",
                     "'editing the target's source accordingly' is performed by the harness on the generator's AST (and independently by Spec.YCfgS.editNode in Lean)"],
         "modelled": ["deviations of default / config / mandatory / min-elements / max-elements and not-supported; units, must, unique, type and extension properties are not generated",
@@ -147,18 +148,21 @@ PROPS = {
         "rule": "random module bodies with config / status statements (as for C20), 0-5 features in the module and 0-3 in an imported module with a random dependency graph (forward edges, rare back edges, "
                 "cross-module edges, rare deprecated/obsolete features), a random enabled set, if-feature statements (1-2 per node, local and imported features) on 18 % of the nodes, and 0-3 deviations "
                 "(not-supported; add / replace / delete of default, config, mandatory, min-elements, max-elements; 12 % chosen against what the RFC allows for the node); compared: the compile verdict and error class, "
-                "the dump of the compiled tree, and — on the real code — dump(module + deviations) = dump(module edited accordingly)",
+                "the dump of the compiled tree, and — on the real code — dump(module + deviations) = dump(module edited accordingly); "
+                "yuses (the stream of C12, here for status and config handed down by uses / augment statements that carry a status of their own, to nodes that state one too)",
     },
     "C12": {
-        "streams": {"yuses": {"quick": 2500, "thorough": 120000}},
+        "streams": {"yuses": {"quick": 6000, "thorough": 150000}},
         "trusted": ["the generator writes the inline module first and factors parts of it out (groupings, refines, augments under uses, module-level augments): the two modules are equivalent by construction of the factoring steps",
                     "the canonical dump of a compiled ModelSet and the error classes (harness)"],
-        "modelled": ["when and status on uses / augment, refines of must / description / reference, submodules, opd:augment are not generated",
+        "modelled": ["refines of must / description / reference, submodules, opd:augment are not generated",
                      "a name is used once per module (plus the copies a second uses of a grouping makes): the namespace of a node is looked up by name",
                      "augments are applied in the order written (an augment whose target is added by a later augment is not generated)"],
         "rule": "random inline modules; 1-3 groupings factored out of random child ranges (module body, containers, lists, cases), 30 % into an imported module, 40 % factored again inside (nesting depth <= 3), "
                 "with refines (default, mandatory, presence, min/max-elements) removed from the grouping and written under the uses, an augment under the uses taking part of a container two or more levels down, "
                 "an if-feature on the uses, and in 30 % a second uses of the same grouping elsewhere without the refines; 0-2 module-level augments, 45 % of them in another module (namespace of the added nodes); "
+                "when statements (plain and prefixed) and status statements on uses and augments, including on nodes that state a status themselves; groupings defined inside containers, lists and other groupings (scoped, shadowing excluded), chains of uses through them; "
+                "status / description on groupings; short-hand cases added to choices by augments; a deliberate name clash (4 %) between a choice, a case and a data node; "
                 "compared on the real code: dump(factored) = dump(inline) without namespaces, and the namespace of every node; compared with the Lean expansion model: verdict, error class, dump",
     },
     "C11": {
